@@ -272,7 +272,16 @@ func defaultOutputOptions(v Version) OutputOptions {
 // The output does not include any leading or trailing whitespace.
 //
 // The exact format written depends on the output options.
+//
+// Objects which the readers in this library would refuse because of their
+// size or nesting depth are not written; an error is returned instead.
 func Format(w io.Writer, opt OutputOptions, objects ...Object) error {
+	return formatObjects(w, opt, 0, objects...)
+}
+
+// formatObjects implements [Format].  The argument depth gives the number of
+// arrays and dictionaries which enclose the objects.
+func formatObjects(w io.Writer, opt OutputOptions, depth int, objects ...Object) error {
 	var err error
 
 	if opt.HasAny(OptPretty) {
@@ -284,7 +293,7 @@ func Format(w io.Writer, opt OutputOptions, objects ...Object) error {
 					return err
 				}
 			}
-			_, err = doFormat(w, obj, opt, false)
+			_, err = doFormat(w, obj, opt, false, depth)
 			if err != nil {
 				return err
 			}
@@ -293,7 +302,7 @@ func Format(w io.Writer, opt OutputOptions, objects ...Object) error {
 		// Avoid spaces between objects as much as possible.
 		needSep := false
 		for _, obj := range objects {
-			needSep, err = doFormat(w, obj, opt, needSep)
+			needSep, err = doFormat(w, obj, opt, needSep, depth)
 			if err != nil {
 				return err
 			}
@@ -309,7 +318,12 @@ func Format(w io.Writer, opt OutputOptions, objects ...Object) error {
 // separator before the object, in case the output starts with an alphanumeric
 // character. The first return value indicates whether a separator is needed
 // after the object, if the following object starts with a regular character.
-func doFormat(w io.Writer, obj Object, opt OutputOptions, needSep bool) (bool, error) {
+//
+// The argument depth gives the number of arrays and dictionaries which
+// enclose the object.  Objects which the scanner would refuse to read back
+// (see maxScannerNestDepth, maxStringBytes, maxNameBytes, maxArrayLen and
+// maxDictLen) are not written, an error is returned instead.
+func doFormat(w io.Writer, obj Object, opt OutputOptions, needSep bool, depth int) (bool, error) {
 	var native Native
 	if obj != nil {
 		native = obj.AsPDF(opt)
@@ -338,11 +352,17 @@ func doFormat(w io.Writer, obj Object, opt OutputOptions, needSep bool) (bool, e
 			return true, err
 		}
 
+		if depth >= maxScannerNestDepth {
+			return false, errNestingTooDeep
+		}
+		if len(x) > maxArrayLen {
+			return false, errors.New("array too long")
+		}
 		_, err := io.WriteString(w, "[")
 		if err != nil {
 			return false, err
 		}
-		err = Format(w, opt, x...)
+		err = formatObjects(w, opt, depth+1, x...)
 		if err != nil {
 			return false, err
 		}
@@ -365,7 +385,10 @@ func doFormat(w io.Writer, obj Object, opt OutputOptions, needSep bool) (bool, e
 		}
 
 	case Dict:
-		err := formatDict(w, opt, x)
+		if depth >= maxScannerNestDepth {
+			return false, errNestingTooDeep
+		}
+		err := formatDict(w, opt, x, depth+1)
 		return false, err
 
 	case Integer:
@@ -453,14 +476,19 @@ func doFormat(w io.Writer, obj Object, opt OutputOptions, needSep bool) (bool, e
 		if x.ref == 0 {
 			x.ref = x.pdf.Alloc()
 		}
-		return doFormat(w, x.ref, opt, false)
+		return doFormat(w, x.ref, opt, false, depth)
 
 	default:
 		panic(fmt.Sprintf("Format: invalid PDF object type %T", x))
 	}
 }
 
+var errNestingTooDeep = errors.New("nesting depth exceeded")
+
 func formatName(w io.Writer, name Name) error {
+	if len(name) >= maxNameBytes {
+		return errors.New("name too long")
+	}
 	l := []byte(name)
 
 	var funny []int
@@ -513,6 +541,11 @@ func formatString(w io.Writer, s String, opt OutputOptions) error {
 			l = enc
 			pretty = false
 		}
+	}
+	// The scanner accepts one byte less in a literal string than in a hex
+	// string.  For encrypted strings, the bound applies to the ciphertext.
+	if len(l) >= maxStringBytes {
+		return errors.New("string too long")
 	}
 
 	if pretty {
@@ -623,7 +656,19 @@ func formatString(w io.Writer, s String, opt OutputOptions) error {
 	return finalErr
 }
 
-func formatDict(w io.Writer, opt OutputOptions, dict Dict) error {
+// formatDict writes a dictionary.  The argument depth is the nesting depth of
+// the dictionary's values.
+func formatDict(w io.Writer, opt OutputOptions, dict Dict, depth int) error {
+	numEntries := 0
+	for _, val := range dict {
+		if val != nil {
+			numEntries++
+		}
+	}
+	if numEntries > maxDictLen {
+		return errors.New("dictionary too large")
+	}
+
 	_, err := io.WriteString(w, "<<")
 	if err != nil {
 		return err
@@ -649,7 +694,7 @@ func formatDict(w io.Writer, opt OutputOptions, dict Dict) error {
 			if err != nil {
 				return err
 			}
-			_, err = doFormat(w, val, opt, false)
+			_, err = doFormat(w, val, opt, false, depth)
 			if err != nil {
 				return err
 			}
@@ -670,7 +715,7 @@ func formatDict(w io.Writer, opt OutputOptions, dict Dict) error {
 			if err != nil {
 				return err
 			}
-			_, err = doFormat(w, val, opt, true)
+			_, err = doFormat(w, val, opt, true, depth)
 			if err != nil {
 				return err
 			}
@@ -1143,7 +1188,7 @@ func (x *Placeholder) Set(val Native) error {
 
 	// format the value
 	buf := &bytes.Buffer{}
-	_, err := doFormat(buf, val, 0, false)
+	_, err := doFormat(buf, val, 0, false, 0)
 	if err != nil {
 		return fmt.Errorf("Placeholder.Set: %w", err)
 	} else if buf.Len() > x.size {
